@@ -354,6 +354,9 @@ def check(prop, tier, seed=None, nruns=None, wall=None, jobs=None):
     for ln in lines:
         print(ln)
     st = agg["stats"]
+    if sum(agg["other"].values()) * 4 > max(agg["done"], 1):
+        print(f"[{prop}] NOTE: {sum(agg['other'].values())} of {agg['done']} runs met a violation of another property "
+              f"first ({dict(sorted(agg['other'].items()))}): little of this property's own ground was covered - run those checks")
     print(f"[{prop}] runs={agg['done']} ops={st['ops']} mutations={st['mutations'] + st['adds']} "
           f"violating_runs={st['runs_with_violation']} stopped_by_other={sum(agg['other'].values())} "
           f"nontrivial={len(agg['nontrivial'])} states={len(agg['states'])} wall={time.time() - t0:.1f}s "
